@@ -44,6 +44,9 @@ def build(desc):
                 ls[l % len(ls)].v2 = vs[j % nv]
             else:
                 ls[l % len(ls)].v1 = vs[j % nv]
+    sc = desc.get("scale")
+    if sc and not desc.get("eq"):
+        _apply_scale(sc, vs, ls, nv, C)
     nest = desc.get("nest")
     if nest:
         # a graph of graphs: every vertex that is itself a Universe CONTAINS some of the other (linked) vertices
@@ -52,6 +55,69 @@ def build(desc):
                 for n in nest:
                     v.add_vertex(vs[(i + 1 + n) % nv])
     return vs, ls
+
+
+def _apply_scale(sc, vs, ls, nv, C):
+    """
+    Scale a small graph up (appends to vs / ls; the first nv vertices are the original ones):
+      "hub":   [v, K, c, loop]  vs[v] gets K further links to K-5 fresh leaf vertices (the first five leaves get a
+               second, non-adjacent parallel link at the end), classes cycling from c through directed /
+               undirected (sub)classes, every third one pointing AT the hub; loop 1 / 2: a directed / undirected
+               self-loop on the hub in the middle of them
+      "chain": [D, v, c]        D fresh vertices c0 -> c1 -> ... -> c(D-1) -> vs[v] (directed, or undirected for odd c);
+               with both and hub c >= 2 the hub is c0 instead of vs[v]
+    Order of vs afterwards: original, hub leaves, chain.
+    """
+    hub, ch = sc.get("hub"), sc.get("chain")
+    cs = []
+    if ch:
+        D, cv, cc = ch
+        cs = [C.Vertex(attributes={"i": 6000 + n}) for n in range(D)]
+    if hub:
+        v, K, c, loop = hub
+        # with a chain present and c >= 2 the many links sit on the HEAD of the chain (the traversal's start vertex)
+        h = cs[0] if (cs and c >= 2) else vs[v % nv]
+        nleaf = max(1, K - 5)
+        leaves = [C.Vertex(attributes={"i": 3000 + n}) for n in range(nleaf)]
+        vs.extend(leaves)
+        for n in range(K):
+            if loop and n == K // 2:
+                ls.append((C.DirectedEdge if loop == 1 else C.UnDirectedEdge)(h, h))
+            leaf = leaves[n % nleaf]
+            E = C.LINK_CLASSES[(c + n) % 4]
+            ls.append(E(leaf, h) if n % 3 == 2 else E(h, leaf))
+    if ch:
+        E = C.UnDirectedEdge if cc % 2 else C.DirectedEdge
+        vs.extend(cs)
+        for n in range(D - 1):
+            ls.append(E(cs[n], cs[n + 1]))
+        ls.append(E(cs[-1], vs[cv % nv]))
+
+
+def scale_layout(desc):
+    """-> (range of hub-leaf indices, range of chain indices) in the vs returned by build(desc)."""
+    nv = desc["nv"]
+    sc = desc.get("scale") or {}
+    nleaf = max(1, sc["hub"][1] - 5) if sc.get("hub") else 0
+    D = sc["chain"][0] if sc.get("chain") else 0
+    return range(nv, nv + nleaf), range(nv + nleaf, nv + nleaf + D)
+
+
+def scales(hubs=(65, 70, 130), chains=(260, 300), rate=30):
+    """Strategy for the optional "scale" entry of a graph description: None in (rate-1)/rate of the cases."""
+    hub = st.tuples(st.integers(0, 7), st.sampled_from(list(hubs)), st.integers(0, 3), st.integers(0, 2)).map(list) if hubs else st.none()
+    chain = st.tuples(st.sampled_from(list(chains)), st.integers(0, 7), st.integers(0, 1)).map(list) if chains else st.none()
+    some = st.one_of(
+        st.builds(lambda h: {"hub": h}, hub) if hubs else st.nothing(),
+        st.builds(lambda c: {"chain": c}, chain) if chains else st.nothing(),
+        st.builds(lambda h, c: {"hub": h, "chain": c}, hub, chain) if (hubs and chains) else st.nothing(),
+    )
+    return st.integers(0, rate - 1).flatmap(lambda r: some if r == 0 else st.none())
+
+
+def with_scale(descs, **kw):
+    """Graph descriptions, a few of them scaled up."""
+    return st.builds(lambda g, sc: dict(g, scale=sc) if sc else g, descs, scales(**kw))
 
 
 def copied(vs, ls, extra=None, how=0):
@@ -63,16 +129,22 @@ def copied(vs, ls, extra=None, how=0):
     import pickle
 
     bundle = (list(vs), list(ls), extra)
-    if how % 3 == 0:
-        return copy.deepcopy(bundle)
     import dill
 
-    if how % 3 == 1:
-        try:
-            return pickle.loads(pickle.dumps(bundle))
-        except (AttributeError, pickle.PicklingError, TypeError):
-            # warm neighbor caches may be keyed by this harness's local filter closures, which only dill can pickle
-            return dill.loads(dill.dumps(bundle))
+    if len(bundle[0]) > 200:
+        how = 2     # a scaled-up (possibly very deep) world: deepcopy and pickle recurse per reference, nrpickler does not
+
+    try:
+        if how % 3 == 0:
+            return copy.deepcopy(bundle)
+        if how % 3 == 1:
+            try:
+                return pickle.loads(pickle.dumps(bundle))
+            except (AttributeError, pickle.PicklingError, TypeError):
+                # warm neighbor caches may be keyed by this harness's local filter closures, which only dill can pickle
+                return dill.loads(dill.dumps(bundle))
+    except RecursionError:
+        pass    # a deep (scaled-up) world: deepcopy and pickle recurse per reference; the library's pickler does not
     from edgegraph.output import nrpickler
 
     return dill.loads(nrpickler.dumps(bundle))
